@@ -278,3 +278,86 @@ def run_msgmeans(prog, rule="R-MSGMEANS", floor=4):
     res.counts["calls_of_message_returning_setters"] = n
     res.floor("calls of message-returning setters whose value is kept", n, floor)
     return res
+
+
+def run_defaultpair(prog, rule="R-DEFAULTPAIR", floor=1):
+    """the writers omit what the reader would supply.  The reader gives a column a *finite* default upper bound (1, for an integer column)
+    only when no lower bound was stated (R-EXPLICITBND); the writers ask `ILLraw_default_upper` whether a column's upper bound "is the
+    default" and omit the record when it says yes.  A comparison of an element of `ILLlpdata::upper` with the finite constant
+    (`oneLpNum`) in a function that returns the verdict must therefore be controlled by a condition that reads the same column's
+    `ILLlpdata::lower`: a bound of 1 on an integer column in [-1, 1] is not a default, and the omitted record reads back as +inf."""
+    from ..core import walk, strip, is_var, callee, show, short_loc, dominators, apath, fields_of
+    res = RuleResult(rule, "a comparison of a column's upper bound with the finite default constant is controlled by a condition on the column's lower bound")
+    n = 0
+    for f in sorted(prog.funcs.values(), key=lambda x: x.key):
+        if f.live is None or "_dbl." in f.unit or "_mpf." in f.unit or not f.unit.startswith("qsopt_ex/") or "int" not in (f.ret or ""):
+            continue
+        sites = []
+        for bid in f.live:
+            blk = f.blocks[bid]
+            trees = [(e[1], e[2]) for e in blk["e"] if e[0] in ("R", "C", "A") and isinstance(e[1], list)]
+            if blk.get("c") is not None:
+                trees.append((blk["c"], blk.get("tloc", f.loc)))
+            for t, loc in trees:
+                for nd in walk(t):
+                    if isinstance(nd, list) and nd and nd[0] == "c" and (nd[1] or "").endswith("mpq_equal") and len(nd[3]) == 2:
+                        a, b_ = strip(nd[3][0]), strip(nd[3][1])
+                        fl = fields_of(apath(a)[2]) if apath(a) else None
+                        if fl and fl[-1].endswith("ILLlpdata::upper") and is_var(b_) and b_[1] == "g" and "oneLpNum" in b_[2]:
+                            sites.append((bid, loc, show(nd)))
+        if not sites:
+            continue
+        dom = dominators(prog, f)[0]
+        ctrl = {}
+        for bid in f.live:
+            c = f.blocks[bid].get("c")
+            if c is None:
+                continue
+            reads_lower = False
+            for nd in walk(c):
+                if isinstance(nd, list) and nd and nd[0] == "m" and isinstance(nd[2], str) and nd[2].endswith("ILLlpdata::lower") and len(nd) > 3:
+                    reads_lower = True
+            if reads_lower:
+                # an element of the array, not the NULL test of the array pointer
+                if any(isinstance(nd, list) and nd and nd[0] == "i" and isinstance(strip(nd[1]), list) and strip(nd[1])[0] == "m"
+                       and str(strip(nd[1])[2]).endswith("ILLlpdata::lower") for nd in walk(c)):
+                    ctrl[bid] = [s for s in prog.live_succs(f, f.blocks[bid]) if s is not None]
+        seen = set()
+        for bid, loc, txt in sites:
+            if (bid, txt) in seen:
+                continue
+            seen.add((bid, txt))
+            n += 1
+            res.obligations += 1
+            res.nontrivial += 1
+            ok = False
+            for d, ss in ctrl.items():
+                # the site lies in a branch of d: dominated by a successor of d that is not the join of both branches
+                for s_ in ss:
+                    if (s_ == bid or s_ in dom.get(bid, ())) and not all((x == bid or x in dom.get(bid, ())) for x in ss):
+                        ok = True
+                    # chains of conversions (`?:` blocks of the number macros) between the test and the site
+                if not ok and d in dom.get(bid, ()):
+                    x = d
+                    for _ in range(6):
+                        ss2 = [s for s in prog.live_succs(f, f.blocks[x]) if s is not None]
+                        nxt = [s for s in ss2 if s == bid or s in dom.get(bid, ())]
+                        if len(ss2) == 2 and len(nxt) == 1:
+                            ok = True
+                            break
+                        if len(nxt) != 1 and not (len(ss2) == 2 and len(nxt) == 2):
+                            break
+                        # both successors lead on (a `?:` diamond): follow their join
+                        x = nxt[0] if len(nxt) == 1 else None
+                        if x is None:
+                            break
+            if ok:
+                res.sample({"site": "%s %s: %s" % (short_loc(loc), f.name, txt[:60]), "verdict": "inside a branch of a test of the column's lower bound"}, limit=6)
+            else:
+                res.violations.append(Violation(rule, "%s|upper bound compared with the finite default without a look at the lower bound" % f.name.replace("mpq_", ""),
+                                                f.name, short_loc(loc), "%s decides 'the upper bound is the default' for every column with that value; the reader supplies "
+                                                "the finite default only for a column whose lower bound was not stated, so the omitted record of a column with "
+                                                "another lower bound reads back as +inf" % txt[:70]))
+    res.counts["comparisons_with_the_finite_default"] = n
+    res.floor("comparisons of an upper bound with the finite default constant", n, floor)
+    return res
